@@ -1,6 +1,7 @@
 mod decode;
 mod exec;
 mod gen_c07;
+mod gen_elf;
 mod gen_fuzz;
 mod gen_instr;
 mod gen_mem;
@@ -31,6 +32,8 @@ fn main() {
                 "C12" => gen_prog::gen_c12(tier, seed, &mut out),
                 "C13" => gen_prog::gen_c13(tier, seed, &mut out),
                 "C14" => gen_prog::gen_c14(tier, seed, &mut out),
+                "C15" => gen_elf::gen_c15(tier, seed, &mut out),
+                "C16" => gen_elf::gen_c16(tier, seed, &mut out),
                 "C17" => gen_prog::gen_c17(tier, seed, &mut out),
                 "C18" => gen_prog::gen_c18(tier, seed, &mut out),
                 "C19" => gen_fuzz::gen_c19(tier, seed, &mut out),
